@@ -489,11 +489,16 @@ func (p *PoolAllocator) AllocateWithOptions(ctx context.Context, opts AllocateOp
 
 // Release releases a subscriber's allocation and removes from store.
 func (p *PoolAllocator) Release(ctx context.Context, subscriberID string) error {
-	if err := p.allocator.Release(subscriberID); err != nil {
+	if p.allocator.Lookup(subscriberID) == nil {
+		return p.allocator.Release(subscriberID) // reports ErrNotAllocated
+	}
+
+	// Remove the record from the store first: if that fails, memory and store still agree
+	if err := p.store.RemoveAllocation(ctx, p.poolID, subscriberID); err != nil {
 		return err
 	}
 
-	return p.store.RemoveAllocation(ctx, p.poolID, subscriberID)
+	return p.allocator.Release(subscriberID)
 }
 
 // Lookup returns the allocation for a subscriber.
